@@ -1020,6 +1020,51 @@ def s18(repo, res):
     res.require(n >= 2, "S18: position validator call sites vanished")
 
 
+def nonempty_gates(repo, res, rule):
+    """pose paths have at least one entry: the two gates through which position / displacement arrays and rotations enter
+    (`check_array_shape`, reached from every `check_format_input_vector`, and `check_format_input_orientation`) test the input for emptiness
+    (`X.size` / `len(X)` / `X.shape[0]` compared with 0 or 1, or used as a truth value) - an empty array has an admissible rank and last
+    axis and would be stored as a path of length 0, on which the next field computation fails with an internal error"""
+    m = repo.mod(IC)
+
+    def emptiness_tests(fn):
+        out = []
+
+        def measure(e):
+            if isinstance(e, ast.Attribute) and e.attr == "size":
+                return True
+            if isinstance(e, ast.Call) and ast.unparse(e.func) in ("len", "np.size") and len(e.args) == 1:
+                return True
+            return isinstance(e, ast.Subscript) and isinstance(e.value, ast.Attribute) and e.value.attr == "shape" and isinstance(e.slice, ast.Constant) and e.slice.value == 0
+        for x in ast.walk(fn):
+            if isinstance(x, ast.Compare) and len(x.ops) == 1:
+                a, b = x.left, x.comparators[0]
+                for u, v in ((a, b), (b, a)):
+                    if measure(u) and isinstance(v, ast.Constant) and v.value in (0, 1) and not isinstance(v.value, bool):
+                        out.append(x)
+                if isinstance(x.ops[0], ast.In) and isinstance(a, ast.Constant) and a.value == 0 and isinstance(b, ast.Attribute) and b.attr == "shape":
+                    out.append(x)
+            if isinstance(x, ast.UnaryOp) and isinstance(x.op, ast.Not) and measure(x.operand):
+                out.append(x)
+            if isinstance(x, (ast.If, ast.IfExp, ast.While, ast.Assert)) and measure(x.test):
+                out.append(x.test)
+            if isinstance(x, ast.BoolOp):
+                out += [v for v in x.values if measure(v)]
+        return out
+    for gate in ("check_array_shape", "check_format_input_orientation"):
+        fn = m.funcs.get(gate)
+        res.require(fn is not None, f"anchor vanished: input_checks.{gate}")
+        # the test may live in a helper the gate calls (one level)
+        tests = emptiness_tests(fn)
+        for c in ast.walk(fn):
+            if isinstance(c, ast.Call) and isinstance(c.func, ast.Name) and c.func.id in m.funcs and c.func.id != gate:
+                tests += emptiness_tests(m.funcs[c.func.id])
+        res.ob(f"{rule}:{gate}", bool(tests), {"rule": rule, "gate": gate, "emptiness_tests": [norm(t) for t in tests][:4]})
+        if not tests:
+            res.add(Finding(rule, m.rel, gate, fn, "no test for an empty input: an array of shape (0, 3) / an empty Rotation passes (admissible rank and last axis) and "
+                            "becomes a pose path of length 0", fn.lineno))
+
+
 def s20_s22(repo, res):
     """S20 rank before size: in the shape validator `len(inp)` / `inp.shape[..]` are only evaluated where the rank test `inp.ndim in dims` has
         succeeded (nested under it, to its right in an `and`, or after `if <rank test fails>: raise`); evaluated unconditionally, a 0-d array
@@ -1104,7 +1149,7 @@ def s20_s22(repo, res):
 
 
 def run(repo, res, tier):
-    res.rules = ["S20 rank test before size tests", "S21 same-named scalar attributes agree", "S22 exact input guards", "S1 validate-before-store", "S2 independent copy", "S3 documented shape vs configuration", "S4 constraints consulted on accepting paths",
+    res.rules = ["S23 pose-path gates reject empty input", "S20 rank test before size tests", "S21 same-named scalar attributes agree", "S22 exact input guards", "S1 validate-before-store", "S2 independent copy", "S3 documented shape vs configuration", "S4 constraints consulted on accepting paths",
                  "S5 None-flow", "S6 constructor = setter", "S8 relational constraints", "S9 rank/type gates",
                  "S10 a membership-validated setter stores the value it tested",
                  "S11 validated value stored verbatim", "S12 total exception translation", "S13 field_func probe adequacy", "S14 scalar gates admit every real number type",
@@ -1123,6 +1168,7 @@ def run(repo, res, tier):
     s17(repo, res)
     s18(repo, res)
     s20_s22(repo, res)
+    nonempty_gates(repo, res, "S23")
     import rules_domain
     n10 = rules_domain.checked_is_stored(repo, res, "S10")
     res.require(n10 >= 12, f"S10: only {n10} membership-validated setters found (16 confirmed by hand)")
